@@ -419,10 +419,12 @@ Visits_asCodedAt(C, cfg)     == VisitsAt(C, cfg, FALSE, VisitsWith(C, EmptyTbl, 
 Visits_asCodedFastAt(C, cfg) == VisitsAt(C, cfg, TRUE, VisitsWith(C, CostTbl(C), FALSE))   \* through the tables
 \* memoised ideal: it stops at the first violation as well, so its work is at most the full ideal work of the walkers that ran
 Visits_idealAt(C, cfg) ==
-  LET c == Visits_asCodedFastAt(C, cfg) i == Visits_ideal(C) IN
-  IF c[1] = 0 /\ c[4] = 0 /\ c[5] = 0 /\ c[3] > 0 /\ RdOps(C, 1, EffL(cfg), TRUE, CostTbl(C)).stop THEN <<0, 0, i[3], 0, 0>>
-  ELSE IF cfg.directives >= 0 /\ MdOps(C, 1, cfg.directives, TRUE, CostTbl(C)).stop THEN <<0, 0, i[3], i[4], 0>>
-  ELSE IF cfg.directives < 0 THEN <<i[1], i[2], i[3], 0, i[5]>> ELSE i
+  LET i  == Visits_ideal(C)
+      rd == RdOps(C, 1, EffL(cfg), TRUE, CostTbl(C))
+      md == IF cfg.directives < 0 THEN Go(0) ELSE MdOps(C, 1, cfg.directives, TRUE, CostTbl(C))
+  IN IF rd.stop THEN <<0, 0, i[3], 0, 0>>
+     ELSE IF md.stop THEN <<0, 0, i[3], i[4], 0>>
+     ELSE IF cfg.directives < 0 THEN <<i[1], i[2], i[3], 0, i[5]>> ELSE i
 \* trigger of DevNoMemo for one request: a fragment is expanded more than once by the operations, and re-visiting is what
 \* the request's as-coded work consists of -- some walker that ran did more than visiting every fragment body once costs.
 \* A request refused by a limit before the fan-out is walked is not in the trigger class.
